@@ -279,6 +279,39 @@ def main(chk):
                            'on the pre-existing state', {})
     except Exception as e:
       chk.violation(key, f'raised {type(e).__name__}: {str(e)[:200]}', {})
+  # ---- auto-named children created inside the body of a function-form transform and after it: same names / variables as the
+  #      unrolled loop with one shared layer (the name cursor advanced inside the lifted body reaches the enclosing method)
+  class Aff(nn.Module):
+    @nn.compact
+    def __call__(self, x):
+      return self.param('w', lambda k: jnp.asarray(3, jnp.int32)) * x + 1
+
+  class AutoNamed(nn.Module):
+    kind: str = 'loop'
+
+    @nn.compact
+    def __call__(self, x):
+      if self.kind == 'scan':
+        c, _ = nn.scan(lambda mdl, c, _: (Aff()(c), ()), variable_broadcast='params', split_rngs={'params': False}, length=3)(self, x, None)
+      elif self.kind == 'vmap':
+        c = nn.vmap(lambda mdl, a: Aff()(a), variable_axes={'params': None}, split_rngs={'params': False}, in_axes=0, out_axes=0)(self, x)
+      else:
+        layer = Aff()
+        c = layer(layer(layer(x))) if self.kind == 'loop3' else layer(x)
+      return Aff()(c)      # the second layer: Aff_1
+  xa = jnp.asarray([1, 2], jnp.int32)
+  two = {'params': {'Aff_0': {'w': jnp.asarray(2, jnp.int32)}, 'Aff_1': {'w': jnp.asarray(5, jnp.int32)}}}
+  for kind, ref in (('scan', 'loop3'), ('vmap', 'loop1')):
+    key = f'C06:function-form:{kind}:auto-named-children'
+    chk.count(key)
+    try:
+      names = sorted(AutoNamed(kind=kind).init(jax.random.key(0), xa)['params'])
+      got = np.asarray(AutoNamed(kind=kind).apply(two, xa)).tolist()
+      want = np.asarray(AutoNamed(kind=ref).apply(two, xa)).tolist()
+      if names != ['Aff_0', 'Aff_1'] or got != want:
+        chk.violation(key, f'init creates {names} (the loop: [Aff_0, Aff_1]); apply on (Aff_0.w=2, Aff_1.w=5) returns {got}, the loop {want}', {})
+    except Exception as e:
+      chk.violation(key, f'raised {type(e).__name__}: {str(e)[:200]}', {})
   # ---- a carried variable owned by a setup-declared (grand)child: used before the loop, updated by nn.scan over the parent,
   #      used again afterwards - the scan must leave what the unrolled loop leaves, visible to the code after it
   class Cnt(nn.Module):
